@@ -27,6 +27,7 @@ truthy = z3.Function("truthy", Int, Bool)  # truth value of an arbitrary python 
 exc_sub = z3.Function("exc_sub", Int, Int, Bool)  # issubclass(type(exc), cls) on class codes
 
 STR_REF = z3.Function("STR_REF", Str, Int)
+REF_HOOKS: list = []  # value -> z3 Int | None : reference forms of meta-level values (e.g. bound methods)
 _fresh_counter = itertools.count()
 
 
@@ -180,6 +181,10 @@ def ref_of(v: V):
         return v.e
     if isinstance(v, S):
         return STR_REF(v.e)  # a str object stored in a container: an injective image of its value
+    for hook in REF_HOOKS:
+        r = hook(v)
+        if r is not None:
+            return r
     raise Unsupported(f"no reference form for {type(v).__name__}")
 
 
